@@ -64,6 +64,7 @@ type cnDriver struct {
 	lastRh      []*rhView        // round state of the runtimes at the end of the previous block
 	rhQuiet     map[string]int64 // runtime -> round for which no further commitments are generated (left to the round timer)
 	vaults      bool             // vault transactions are generated
+	evidenceAt  int64            // height at which consensus evidence is included (grown-committee pattern)
 	txSweep     bool             // all single structural body mutations of the block's transactions at CheckTx / EstimateGas
 	sweepInputs int
 	otherTxs    []cnBlockResult  // results of the current block on the validator replicas (all paths but the observer's)
@@ -386,6 +387,16 @@ func (d *cnDriver) step() error {
 	if d.rng.Intn(40) == 0 && h > 2 {
 		b.Evidence = append(b.Evidence, 99) // evidence against an unknown validator
 	}
+	if d.evidenceAt == h && len(b.Evidence) == 0 {
+		// (second half of the "grown committee" pattern below: misbehaviour evidence in the block after the descriptor update, so
+		// that the elections are re-run in the middle of the epoch)
+		for _, v := range vs {
+			if v != 1 {
+				b.Evidence = append(b.Evidence, v)
+				break
+			}
+		}
+	}
 	// mempool
 	var metas []cnTxMeta
 	nTx := d.rng.Intn(6)
@@ -575,6 +586,32 @@ func (d *cnDriver) step() error {
 			metas = append(metas, cnTxMeta{sp, raw})
 		} else {
 			return err
+		}
+	}
+	if d.rng.Intn(10) == 0 {
+		// grown committee: the owner of a runtime that has a committee and finalized rounds raises the executor group size; evidence
+		// against a validator in the next block makes the scheduler elect again within the epoch (a larger committee takes over
+		// while the epoch's per-member statistics are those of the old one)
+		for _, v := range d.lastRh {
+			owner, ok := d.rtOwner[v.RT]
+			if !ok || v.Suspended || len(v.W) == 0 || v.Round < 1 || len(v.W) >= d.maxGroup+1 {
+				continue
+			}
+			var deps []string
+			for _, c := range d.rtDeps[v.RT] {
+				deps = append(deps, fmt.Sprintf("%d@%d", c[0], c[1]))
+			}
+			if len(deps) == 0 {
+				deps = []string{"0@0"}
+			}
+			sp := &cnTxSpec{Kind: "regruntime", Signer: owner, To: v.RT, Deps: strings.Join(deps, ";"), Gov: "entity",
+				Shape: fmt.Sprintf("g%db%dm0p0v0s0", len(v.W)+1, len(v.B)), Nonce: uint64(d.acctField(owner, "n")) + nonceBump[owner], Gas: 5000, Validity: "ok"}
+			if raw, err := n.buildTx(sp, d.rng); err == nil {
+				nonceBump[owner]++
+				metas = append(metas, cnTxMeta{sp, raw})
+				d.evidenceAt = h + 1
+			}
+			break
 		}
 	}
 	if len(d.rtOwner) > 0 && d.rng.Intn(2) == 0 {
